@@ -35,7 +35,7 @@ class ExitTruthMonitor(solvex.Monitor):
 
     def _on_end(self, ex):
         if ex.outcome != "returned":
-            if ex.outcome == "raised":
+            if ex.outcome == "raised" and not mon.raise_is_allowed(ex):
                 ex.violate("returns", "solve raised %s: %s" % (type(ex.exc).__name__, ex.exc))
             return
         s = ex.soln
@@ -169,6 +169,11 @@ def _configs(tier, salts):
                                 cfg = cfgs.base_cfg(prob, salt, npt=3, rhobeg=0.3, rhoend=1e-2, maxfun=maxfun, memo=False, noise_amp=0.02,
                                                     nsamples=ns, user_params=cfgs.user_params(3, up), tag_restart=rmode + "_avg")
                                 out.append((cfg, {"depth": 0}))
+        # the broad option bank over many budgets
+        if salt == 0 or tier == "thorough":
+            for name, cfg in cfgs.broad_cfgs(salt=salt, budgets=tuple(range(2, 62, 3 if tier == "quick" else 1)), reg_budgets=(3, 8)):
+                cfg = dict(cfg, tag_restart="broad")
+                out.append((cfg, {"depth": 0}))
         # an objective that is non-finite at EVERY evaluation (one more way a run can end)
         if salt == 0:
             for rmode in ("none", "soft", "hard_old", "hard_new"):
